@@ -216,7 +216,7 @@ func nativeSamples(repo, verif, pkg string, items []sampleItem) (int, []string) 
 		fmt.Fprintf(&sb, "\t\t%q: %s,\n", h, h)
 	}
 	sb.WriteString("\t}\n\tfor _, it := range strings.Split(os.Getenv(\"VERIF_SAMPLES\"), \",\") {\n\t\tp := strings.SplitN(it, \"|\", 2)\n\t\tif len(p) != 2 {\n\t\t\tcontinue\n\t\t}\n")
-	sb.WriteString("\t\tfmt.Println(\"VERIF-SAMPLE-BEGIN\", p[1])\n\t\tverifrt.LoadReplay(p[1])\n\t\ths[p[0]]()\n\t\tfmt.Println(\"VERIF-SAMPLE-OK\", p[1])\n\t}\n}\n")
+	sb.WriteString("\t\tfmt.Println(\"VERIF-SAMPLE-BEGIN\", p[1])\n\t\tverifrt.LoadReplay(p[1])\n\t\tfunc() {\n\t\t\tdefer func() {\n\t\t\t\tif r := recover(); r != nil {\n\t\t\t\t\tif _, ok := r.(verifrt.SampleDone); !ok {\n\t\t\t\t\t\tpanic(r)\n\t\t\t\t\t}\n\t\t\t\t}\n\t\t\t}()\n\t\t\ths[p[0]]()\n\t\t}()\n\t\tfmt.Println(\"VERIF-SAMPLE-OK\", p[1])\n\t}\n}\n")
 	testFile := filepath.Join(tmp, "zz_verif_samples_test.go")
 	os.WriteFile(testFile, []byte(sb.String()), 0644)
 	repl[filepath.Join(repo, rel, "zz_verif_samples_test.go")] = testFile
